@@ -342,7 +342,7 @@ func (fg *FuncGen) call(v *ssa.Call, c *ssa.CallCommon, instr ssa.Instruction) {
 		}
 		fg.callsExternalUnmodelled[key] = true
 		// effects of a function without any contract are unknown: not acceptable on an API path (C06, C07)
-		fg.obl("ext", "ext."+smtIdent(key), v.Pos(), []string{"C06", "C07", "C15"}, "false", "call to "+key+", which has no contract (its effects on shared state are unknown)")
+		fg.obl("ext", "ext."+smtIdent(key), v.Pos(), []string{"C03", "C06", "C07", "C09", "C15"}, "false", "call to "+key+", which has no contract (its effects on shared state, its cost and whether it can panic are unknown)")
 	}
 	fg.siteAsserts(v, callee, args)
 	pre := fg.st.Copy()
